@@ -354,6 +354,35 @@ def g9(repo, res):
                         "assigning another object's style would make both objects share one style instance (later edits leak)"))
 
 
+G10_TRIAGED = {"Trace3d": "a user-created model3d trace, not a leaf class of the defaults tree: backend/show/scale are per-trace values"}
+
+
+def g10(repo, res):
+    """G10: style leaf classes do not preset non-None values in their constructors.  A preset value sits on every object's own style,
+    so it always wins over the family/base defaults: changing that default has no effect."""
+    n = 0
+    for c in repo.cls_by_key.values():
+        if c.mod.name != "magpylib._src.style" or "__init__" not in c.methods or c.name in G10_TRIAGED:
+            continue
+        f = c.methods["__init__"]
+        a = f.args
+        pos = a.args[1:]
+        ds = [None] * (len(pos) - len(a.defaults)) + list(a.defaults)
+        pairs = list(zip(pos, ds)) + list(zip(a.kwonlyargs, a.kw_defaults))
+        for p, d in pairs:
+            if d is None:
+                continue
+            n += 1
+            ok = isinstance(d, ast.Constant) and d.value is None
+            if not ok:
+                res.ob(f"G10:{c.name}.{p.arg}", False, {"rule": "G10", "class": c.name, "parameter": p.arg, "preset": ast.unparse(d)})
+                res.add(Finding("G10", c.mod.rel, f"{c.name}.__init__", f"{p.arg}={ast.unparse(d)}",
+                                f"the style class presets `{p.arg}`: every object's own style carries that value, so the family and base defaults "
+                                "for this leaf are never consulted", f.lineno))
+    res.ob("G10:constructor defaults of style classes inspected", True, {"rule": "G10", "defaulted_parameters": n}, nontrivial=False)
+    res.require(n >= 40, f"G10: only {n} constructor defaults found in the style classes")
+
+
 def g8(repo, res):
     """invalid style names are rejected by *exact* membership of the level-0 key in the set of valid keys (set difference / `in`),
     not by prefix/substring matching - otherwise misspelt names that merely start like a valid one are accepted silently"""
@@ -374,7 +403,7 @@ def g8(repo, res):
 
 
 def run(repo, res, tier):
-    res.rules = ["G1 reset/DEFAULTS vs property tree", "G2 alias-free properties", "G3 leaf setters validate", "G4 no caller dict mutated/captured", "G5 precedence dataflow in get_style", "G6 no memoisation on the style path", "G7 temporary style removed on all exits", "G8 exact validation of style names", "G5b None-filters not truthiness", "REC-FWD style keywords forwarded through recursion", "G4b style setter adopts no foreign style object"]
+    res.rules = ["G1 reset/DEFAULTS vs property tree", "G2 alias-free properties", "G3 leaf setters validate", "G4 no caller dict mutated/captured", "G5 precedence dataflow in get_style", "G6 no memoisation on the style path", "G7 temporary style removed on all exits", "G8 exact validation of style names", "G5b None-filters not truthiness", "REC-FWD style keywords forwarded through recursion", "G4b style setter adopts no foreign style object", "G10 no preset values in style constructors"]
     g1(repo, res)
     g2_g3(repo, res)
     import origin_rules
@@ -383,6 +412,7 @@ def run(repo, res, tier):
     g6_g7(repo, res)
     g8(repo, res)
     g9(repo, res)
+    g10(repo, res)
     res.assumptions += ["property tree links are the validate_property_class(val, name, Class, self) calls in the setters",
                         "NumPy/stdlib copy-view table of origdom.py (dict.copy / dict display / {**d} are copies one level deep)"]
     return {}
